@@ -443,18 +443,13 @@ def main(pid, tier, vseed, replay=None):
         return 2
 
     # 3. buckets -> shrink -> VIOLATION / KNOWN-FINDING
-    all_buckets = {}
+    all_buckets = {}       # one bucket per (subcheck, stage): different stages reach different root causes
     for sname, m in merged.items():
         for sub, b in m['buckets'].items():
-            ab = all_buckets.get(sub)
-            if ab is None or b['size'] < ab['size']:
-                cnt = (ab['count'] if ab else 0) + b['count']
-                all_buckets[sub] = dict(b, count=cnt, stage=sname)
-            else:
-                ab['count'] += b['count']
+            all_buckets[(sub, sname)] = dict(b, stage=sname)
     excluded = 0
-    for sub in sorted(all_buckets):
-        b = all_buckets[sub]
+    for sub, sname in sorted(all_buckets):
+        b = all_buckets[(sub, sname)]
         case, detail = b['case'], b['detail']
         si = [i for i, s in enumerate(stages) if s.name == b['stage']][0]
         if stages[si].kind == 'hyp' and os.environ.get('PV_SHRINK', '1') != '0':
@@ -519,7 +514,7 @@ def main(pid, tier, vseed, replay=None):
             replays_run=replays_run,
             open_known_findings=sorted(open_known),
             cases_matching_open_findings=excluded,
-            failure_buckets={sub: b['count'] for sub, b in all_buckets.items()},
+            failure_buckets={'%s @%s' % k: b['count'] for k, b in all_buckets.items()},
         ),
         assumptions=list(mod.ASSUMPTIONS),
         wall_s=round(time.time() - t0, 2),
